@@ -539,7 +539,7 @@ func handleUIDExpunge(deps ServerDeps, conn net.Conn, tag string, parts []string
 	query := `
 		SELECT id, uid FROM message_mailbox
 		WHERE mailbox_id = ? AND uid IN (` + strings.Join(placeholders, ",") + `)
-		AND flags LIKE '%\Deleted%'
+		AND (' ' || flags || ' ') LIKE '% \Deleted %'
 		ORDER BY uid ASC
 	`
 
